@@ -76,6 +76,36 @@ func init() {
 		st.mutexes[p.Obj] = true
 		return retExit(st, e.tc.True)
 	}
+	// sync/atomic: one thread runs at a time (coroutines), so the primitives are plain loads and stores; the
+	// typed wrappers (atomic.Uint32 ...) are interpreted from their source and end up here
+	for _, ty := range []string{"Int32", "Uint32", "Int64", "Uint64", "Uintptr"} {
+		stubs["sync/atomic.Load"+ty] = func(e *Engine, st *State, fr *Frame, fn *ssa.Function, args []Value, pos token.Pos) []exit {
+			return retExit(st, e.load(st, args[0].(PtrV)))
+		}
+		stubs["sync/atomic.Store"+ty] = func(e *Engine, st *State, fr *Frame, fn *ssa.Function, args []Value, pos token.Pos) []exit {
+			e.store(st, args[0].(PtrV), args[1])
+			return retExit(st, nil)
+		}
+		stubs["sync/atomic.Add"+ty] = func(e *Engine, st *State, fr *Frame, fn *ssa.Function, args []Value, pos token.Pos) []exit {
+			p := args[0].(PtrV)
+			n := e.tc.BVAdd(e.load(st, p).(*Term), args[1].(*Term))
+			e.store(st, p, n)
+			return retExit(st, n)
+		}
+		stubs["sync/atomic.Swap"+ty] = func(e *Engine, st *State, fr *Frame, fn *ssa.Function, args []Value, pos token.Pos) []exit {
+			p := args[0].(PtrV)
+			old := e.load(st, p)
+			e.store(st, p, args[1])
+			return retExit(st, old)
+		}
+		stubs["sync/atomic.CompareAndSwap"+ty] = func(e *Engine, st *State, fr *Frame, fn *ssa.Function, args []Value, pos token.Pos) []exit {
+			p := args[0].(PtrV)
+			cur := e.load(st, p).(*Term)
+			eq := e.tc.Eq(cur, args[1].(*Term))
+			e.store(st, p, e.tc.Ite(eq, args[2].(*Term), cur))
+			return retExit(st, eq)
+		}
+	}
 	// sync.WaitGroup: the counter lives in the struct's sema field (uint32); Wait parks until it is zero
 	wgCount := func(e *Engine, st *State, p PtrV) (PtrV, int64) {
 		f := PtrV{Obj: p.Obj, Path: appendPath(p.Path, PathElem{I: 2})}
